@@ -61,6 +61,14 @@ def r1_typestate(ctx, rid="C13.R1", title="the state assigned to a model is a cl
                                   "the model would share / keep the working state of the run")
                     continue
                 cl = clones[0]
+                # the state the model keeps is one of its own kind: a clone with the snapshotting switched off (`disable_auto_fork=True`) makes the
+                # samplers of a later personalisation / fit on this object unable to undo a rejected proposal - the saved-and-reloaded model can
+                clc = cfg.stmt[cl].value
+                off = [k_ for k_ in clc.keywords if k_.arg == "disable_auto_fork" and not (isinstance(k_.value, ast.Constant) and k_.value.value is False)] + \
+                    [a_ for a_ in clc.args[:1] if not (isinstance(a_, ast.Constant) and a_.value is False)]
+                ctx.check(not off, rid, f, cfg.stmt[cl], f"`{var}` is a plain clone (snapshotting kept as in a freshly loaded model)",
+                          f"`{U(cfg.stmt[cl])[:70]}`: the state the model keeps has its snapshotting switched off, unlike the state of the same model once saved and reloaded - a later sampling-based "
+                          "call on this object cannot undo rejected proposals, so its result depends on the object's history", construct=f"{var}: snapshotting kept")
 
                 def calls(pred):
                     out = []
@@ -449,6 +457,10 @@ def rules(ctx):
     from .c07 import r3_job_effects
     r3_job_effects(ctx, rid="C13.R8", title="the per-subject jobs draw nothing (their generators belong to reused worker processes) and write only their own state")
     # 'not on which calls were made earlier': an algorithm object run twice builds its samplers anew (same rule as C07.R13)
+    # ... and a revert that finds no snapshot is an error, never a silent no-op (same rule as C02.R3): the two together are what lets a
+    # model object behave like its saved-and-reloaded twin
+    from .c02 import r3_revert_structure
+    r3_revert_structure(ctx, rid="C13.R13", title="State.revert restores the snapshot and raises when there is none (a call on a model never silently keeps rejected proposals)")
     from .c07 import r13_fresh_samplers_every_run
     r13_fresh_samplers_every_run(ctx, rid="C13.R12", why="a second run of the same algorithm object starts from the proposal scales adapted during the first: its result depends on the calls made earlier")
     ctx.trust("State.clone deep-copies (C01.R5); copy.deepcopy; joblib runs each job on its own state object")
